@@ -83,7 +83,11 @@ IsEdgesOnlyWithNewerNode(o, s1) ==
     /\ LogKeys(s1, o[2]) = LogKeys(s1, o[3])      \* identical logs: nothing tells the peers that they differ
     /\ o[4] \in RowsOf(s1, o[2]) /\ o[4] \in RowsOf(s1, o[3])
     /\ NKey(NodeAt(s1, o[2], o[4])) = NKey(NodeAt(s1, o[3], o[4]))
-    /\ \E e \in Edges(s1, o[2]) : e.src = o[4] /\ e.dst = o[5] /\ e.c < NodeAt(s1, o[3], o[4]).m
+    /\ \/ \E e \in Edges(s1, o[2]) : e.src = o[4] /\ e.dst = o[5] /\ e.c < NodeAt(s1, o[3], o[4]).m
+       \* or: the peer that lacks the reference deleted one of its two rows itself (a local deletion removes the references of the
+       \* row) and the row came back in a newer version from a peer; the reference is not fetched again, its source row did not change
+       \/ \E t \in ToSet(s1[o[3]].ntombs) : /\ t.row \in {o[4], o[5]} /\ t.row \in RowsOf(s1, o[3])
+                                              /\ NodeAt(s1, o[3], t.row).m > t.m
 
 \* Dev DefLogSingleEntity: the definition log carries one row of the last day (the entity whose storage
 \* name sorts first).  Guard: the two peers' definition-log rows are equal although their logs differ,
